@@ -1,0 +1,18 @@
+//go:build verif
+
+// Contracts for the verif build tag (read by /verif/govc; comment-only).
+package resources
+
+// The cluster-config resource is an assumption for the balancer: lookups do not
+// change anything the caller can see, and the node index maps an identifier to the
+// server that carries it.
+//
+//@ func ClusterConfigResource.NamespaceConfig(recv, namespace) (nsc, exist)
+//@ trusted
+//@ modifies nothing
+//@ ensures exist ==> nsc != nil
+
+//@ func ClusterConfigResource.Node(recv, id) (node, exist)
+//@ trusted
+//@ modifies nothing
+//@ ensures exist ==> node != nil && srvId(*node) == id
